@@ -43,6 +43,7 @@ $(MR)/%: $(MR)/%.ml modelrun/driver.ml.in
 modelrun: $(addprefix $(MR)/,$(MODELS))
 
 harness:
+	@test -f harness/Cargo.lock || cp /repo/Cargo.lock harness/Cargo.lock
 	cd harness && cargo build --offline $(if $(MODEL),--bin $(MODEL),--bins) 2>&1 | grep -E "^(error|warning: unused)|Finished|panicked" | head -40; exit $${PIPESTATUS[0]}
 
 clean:
